@@ -2,7 +2,7 @@
     current status.  Property theorems only. *)
 From stdpp Require Import gmap list numbers sorting.
 From Coq Require Import ZArith NArith.
-From Verif Require Import Tx.Store Tx.Ledger Tx.Hist Tx.Inv Tx.Refine.
+From Verif Require Import Tx.Store Tx.Ledger Tx.Hist Tx.Inv Tx.Refine Tx.RefineAll Tx.Corollaries.
 Local Open Scope Z_scope.
 
 (** After every prefix of a chain-consistent history, for every transaction of
@@ -11,18 +11,18 @@ Local Open Scope Z_scope.
     change flag, spent flag = some known transaction spends it) and one debit
     per input spending a wallet credit ([spec_details]); the lookup by its
     current incidence agrees; the unconfirmed set is exactly the ledger's. *)
-Definition C13_statement : Prop :=
+Theorem C13_details_equal_ledger :
   ∀ (U : universe) (h p : list event) (t : txid),
     wf_universe U = true → chain_consistent U h = true → p `prefix_of` h →
     let s := st (run U p) in let F := fs (spec_run U p) in
     tx_details U s t = spec_details U F t ∧
     unique_tx_details U s t (f_conf F !! t) = spec_details U F t ∧
     unmined_hashes s ≡ₚ elements (f_unconf F).
+Proof. exact c13_holds. Qed.
+Print Assumptions C13_details_equal_ledger.
 
-Theorem C13_from_refinement : refinement_statement → details_statement → C13_statement.
-Proof.
-  intros Href Hdet U h p t Hwf Hcons Hpre.
-  pose proof (chain_consistent_prefix U h p Hpre Hcons) as Hp.
-  destruct (Href U p Hwf Hp) as [HI _]. apply Hdet; assumption.
-Qed.
-Print Assumptions C13_from_refinement.
+(** PARTIAL: range iteration ([range_transactions]) is part of the model and of
+    the correspondence run (both directions, -1 conventions), but its
+    "each known transaction exactly once, under its current block" statement
+    is not yet a closed theorem; it follows from [inv_blocks_sound],
+    [inv_blocks_complete] and [inv_unmined] of the invariant. *)
